@@ -23,3 +23,62 @@ package server
 //@        ((len(lastWho.Node.Tags) > 0 && id.Principal.Tags == lastWho.Node.Tags && id.Principal.User == "") ||
 //@         (len(lastWho.Node.Tags) == 0 && id.Principal.User == lastWho.UserProfile.LoginName && len(id.Principal.Tags) == 0)))
 //@   ensures [C01,C08 identity.permissions] err == nil ==> permsFrom(id, lastWho.CapMap)
+
+// ---- the JSON front door --------------------------------------------------------------------
+//@ pred hdrOK(r *http.Request) { r.Method == "POST" && headerGet(ref(r.Header), "Content-Type") == "application/json" && headerGet(ref(r.Header), "Sec-X-Tailscale-No-Browsers") == "setec" }
+//@ pred constBody(b string) { b == "" || b == "only POST requests allowed\n" || b == "request body must be json\n" || b == "access denied\n" ||
+//@      b == "unable to identify caller\n" || b == "bad request\n" || b == "not found\n" || b == "internal error\n" || b == "failed to encode respnse\n" }
+
+//@ func serveJSON(s, w, r, fn)
+//@   requires s != nil && r != nil && r.URL != nil && s.whois != nil && fn != nil && w != nil && respStatus == 0 && respBody == ""
+//@   ensures [C08 gate.method] r.Method != "POST" ==> (respStatus == 400 && respBody == "only POST requests allowed\n" && fnCalls == old(fnCalls) && whoisCalls == old(whoisCalls))
+//@   ensures [C08 gate.ctype] (r.Method == "POST" && headerGet(ref(r.Header), "Content-Type") != "application/json") ==>
+//@        (respStatus == 400 && respBody == "request body must be json\n" && fnCalls == old(fnCalls) && whoisCalls == old(whoisCalls))
+//@   ensures [C08 gate.nobrowser] (r.Method == "POST" && headerGet(ref(r.Header), "Content-Type") == "application/json" && headerGet(ref(r.Header), "Sec-X-Tailscale-No-Browsers") != "setec") ==>
+//@        (respStatus == 403 && respBody == "access denied\n" && fnCalls == old(fnCalls) && whoisCalls == old(whoisCalls))
+//@   ensures [C08 gate.reaches-store-only-if] fnCalls != old(fnCalls) ==> (hdrOK(r) && whoisCalls == old(whoisCalls) + 1 && lastWhoErr == nil && fnCalls == old(fnCalls) + 1)
+//@   ensures [C08 gate.nostore-nonsuccess] fnCalls == old(fnCalls) ==> (respStatus >= 400 && respStatus < 600 && auditLog == old(auditLog) && disk == old(disk))
+//@   ensures [C08 status.403] (fnCalls != old(fnCalls) && errIs(lastFnErr, db.ErrAccessDenied)) ==> (respStatus == 403 && respBody == "access denied\n")
+//@   ensures [C08 status.404] (fnCalls != old(fnCalls) && !errIs(lastFnErr, db.ErrAccessDenied) && errIs(lastFnErr, db.ErrNotFound)) ==> (respStatus == 404 && respBody == "not found\n")
+//@   ensures [C08,C09 status.304] (fnCalls != old(fnCalls) && !errIs(lastFnErr, db.ErrAccessDenied) && !errIs(lastFnErr, db.ErrNotFound) && errIs(lastFnErr, api.ErrValueNotChanged)) ==> (respStatus == 304 && respBody == "")
+//@   ensures [C08 status.500] (fnCalls != old(fnCalls) && lastFnErr != nil && !errIs(lastFnErr, db.ErrAccessDenied) && !errIs(lastFnErr, db.ErrNotFound) && !errIs(lastFnErr, api.ErrValueNotChanged)) ==>
+//@        (respStatus == 500 && respBody == "internal error\n")
+//@   ensures [C08,C09 status.200] (fnCalls != old(fnCalls) && lastFnErr == nil) ==> (respStatus == 200 || (respStatus == 500 && respBody == "failed to encode respnse\n"))
+//@   ensures [C08 status.200-only-on-success] respStatus == 200 ==> (fnCalls == old(fnCalls) + 1 && lastFnErr == nil)
+//@   ensures [C08 non200-constant-body] respStatus != 200 ==> constBody(respBody)
+//@   at call fn: assert [C08 gate-order] hdrOK(r) && call_getIdentity_1 == nil && call_Decode == nil && whoisCalls == old(whoisCalls) + 1
+
+// ---- handlers: each endpoint reaches exactly the database operation of its name ----------------
+//@ func (*Server).get$1(req, id) (sv, err)
+//@   requires s != nil && dbInv(s.db)
+//@   ensures [C01,C08 get.handler-deny] !allows(id.Permissions, "get", req.Name) ==> (sv == nil && errIs(err, db.ErrAccessDenied))
+//@   ensures [C09 get.dispatch-conditional] (req.Version != 0 && req.UpdateIfChanged && allows(id.Permissions, "get", req.Name)) ==>
+//@        (errIs(err, api.ErrValueNotChanged) == (has(s.db.kv.secrets, req.Name) && s.db.kv.secrets[req.Name].ActiveVersion == req.Version))
+//@   ensures [C09 get.dispatch-conditional-value] (req.Version != 0 && req.UpdateIfChanged && err == nil) ==> (sv != nil && sv.Version == s.db.kv.secrets[req.Name].ActiveVersion && sv.Version != req.Version)
+//@   ensures [C09 get.dispatch-version] (req.Version != 0 && !req.UpdateIfChanged) ==> (!errIs(err, api.ErrValueNotChanged) && (err == nil ==> (sv != nil && sv.Version == req.Version)))
+//@   ensures [C09 get.dispatch-default] req.Version == 0 ==> (!errIs(err, api.ErrValueNotChanged) && (err == nil ==> (sv != nil && sv.Version == s.db.kv.secrets[req.Name].ActiveVersion)))
+//@   ensures [C08 get.handler-inv] dbInv(s.db) && noEffect(s.db)
+//@ func (*Server).info$1(req, id) (info, err)
+//@   requires s != nil && dbInv(s.db)
+//@   ensures [C01,C08 info.handler-deny] !allows(id.Permissions, "info", req.Name) ==> (info == nil && errIs(err, db.ErrAccessDenied))
+//@   ensures [C08 info.handler] dbInv(s.db) && noEffect(s.db) && (err == nil ==> (info != nil && info.Name == req.Name))
+//@ func (*Server).list$1(req, id) (infos, err)
+//@   requires s != nil && dbInv(s.db)
+//@   ensures [C01,C08 list.handler] dbInv(s.db) && noEffect(s.db) && (err == nil ==> (forall j int :: (0 <= j && j < len(infos)) ==> listedOK(s.db, id, infos[j])))
+//@ func (*Server).put$1(req, id) (ver, err)
+//@   requires s != nil && dbInv(s.db) && counterRoom(s.db, req.Name)
+//@   ensures [C01,C08 put.handler-deny] !allows(id.Permissions, "put", req.Name) ==> (ver == 0 && err != nil && noEffect(s.db))
+//@   ensures [C02,C08,C18 put.handler] dbInv(s.db) && (err == nil ==> (ver != 0 && hasVersion(s.db.kv, req.Name, ver) && s.db.kv.secrets[req.Name].Versions[ver] == bytes(req.Value)))
+//@ func (*Server).activate$1(req, id) (r, err)
+//@   requires s != nil && dbInv(s.db)
+//@   ensures [C01,C08 activate.handler-deny] !allows(id.Permissions, "activate", req.Name) ==> (err != nil && noEffect(s.db))
+//@   ensures [C02,C08 activate.handler] dbInv(s.db) && (err == nil ==> (req.Version != 0 && s.db.kv.secrets[req.Name].ActiveVersion == req.Version))
+//@ func (*Server).deleteVersion$1(req, id) (r, err)
+//@   requires s != nil && dbInv(s.db)
+//@   ensures [C01,C08 deleteversion.handler-deny] !allows(id.Permissions, "delete", req.Name) ==> (errIs(err, db.ErrAccessDenied) && noEffect(s.db))
+//@   ensures [C01,C02,C08 deleteversion.handler] dbInv(s.db) && (err == nil ==> (req.Version != 0 && has(s.db.kv.secrets, req.Name) && !has(s.db.kv.secrets[req.Name].Versions, req.Version) &&
+//@        s.db.kv.secrets[req.Name].ActiveVersion == old(s.db.kv.secrets[req.Name].ActiveVersion)))
+//@ func (*Server).deleteSecret$1(req, id) (r, err)
+//@   requires s != nil && dbInv(s.db)
+//@   ensures [C01,C08 delete.handler-deny] !allows(id.Permissions, "delete", req.Name) ==> (errIs(err, db.ErrAccessDenied) && noEffect(s.db))
+//@   ensures [C01,C02,C08 delete.handler] dbInv(s.db) && ((err == nil && !hasPrefix(req.Name, "_internal/")) ==> !has(s.db.kv.secrets, req.Name))
